@@ -93,3 +93,18 @@ func AwaitOrDiagnose(done <-chan struct{}, patience, limit time.Duration, minPar
 		}
 	}
 }
+
+// WaitOrDiagnose waits for the goroutines of wg like wg.Wait(), but a wait that does not end is
+// diagnosed: goroutines parked in spine-go locks for good are reported as sigPrefix/deadlock/...,
+// anything else is inconclusive after 5 minutes.
+func WaitOrDiagnose(t TB, wg interface{ Wait() }, sigPrefix, what string) {
+	done := make(chan struct{})
+	go func() { wg.Wait(); close(done) }()
+	where, detail, inconclusive := AwaitOrDiagnose(done, 20*time.Second, 5*time.Minute, 1)
+	if where != "" {
+		Fail(t, sigPrefix+"/deadlock/"+where, "%s: the stack did %s", what, detail)
+	}
+	if inconclusive {
+		t.Fatalf("inconclusive: %s: not through after 5 minutes, without evidence of a lock cycle\n%s", what, detail)
+	}
+}
